@@ -5,7 +5,8 @@
     to it) instantiates [c01_registry_correct] with them after discharging
     [check_registered registered 64 = true] by vm_compute.  This file holds the
     once-proved part. *)
-From Shk Require Import Base.Prelude Model.Fsm Model.Meaning Proofs.Monitors Proofs.FsmProofs.
+From Shk Require Import Base.Prelude Model.Value Model.Functions Model.Expr Model.Fsm Model.Meaning Model.Audit
+  Proofs.Monitors Proofs.FsmProofs Proofs.AuditProofs.
 From Coq Require Import String.
 
 (** If the reflective check of a registry of tables succeeds, then for every
@@ -33,6 +34,23 @@ Proof. exact monitor_meaning. Qed.
 Theorem c01_eventually_always_reading : forall tr,
   meaning EventuallyAlways tr = true <-> exists i j, tr = (repeat false i ++ repeat true (S j))%list.
 Proof. exact ev_always_iff_spec. Qed.
+
+(** What an auditor observes IS its predicate: through the whole round machine
+    (Model/Audit.v, tied to audit.go by C02's correspondence), the label of
+    every report that is not the end-of-period judgement is the value of the
+    `expects` predicate in that round, taken after the auditor's own
+    assignments of the round and only when the predicate's dependencies were
+    just sampled ("err" when it does not evaluate to a boolean).  C02's period
+    grammar follows exactly these labels through the table from its start
+    state; [c01_registry_correct] says what the table makes of them. *)
+Theorem c01_observations_are_the_predicate_values : forall c final s ts m s' o stt tbl p a l code,
+  visit c final s ts m = (s', o, stt) -> m_expect m = Some (tbl, p) ->
+  In (OReport a l code) o -> l <> "end"%string ->
+  a = m_name m /\
+  exists s0 s1 o1, do_assigns c s0 ts (m_assigns m) = (s1, o1, Running) /\ has_deps s1 p = true /\
+    ((l = "err"%string /\ truthy (eval (env_of s1) p) = None) \/
+     (exists b, truthy (eval (env_of s1) p) = Some b /\ l = lbl b)).
+Proof. exact visit_reports_the_predicate_value. Qed.
 
 (** Non-vacuity: meanings that hold and fail. *)
 Example c01_nonvacuous :
